@@ -214,6 +214,23 @@ Proof.
   destruct (a_rows a); [destruct Hr|]. destruct (a_fallback a); discriminate.
 Qed.
 
+Lemma row_num_pos a r : In a actors -> In r (a_rows a) -> 0 < r_num r.
+Proof.
+  intros Ha Hr. pose proof table_complete_b as H. rewrite forallb_forall in H. specialize (H a Ha).
+  unfold actor_complete in H.
+  apply andb_true_iff in H as [H H9]. apply andb_true_iff in H as [H H8].
+  apply andb_true_iff in H as [H H7]. apply andb_true_iff in H as [H H6].
+  apply andb_true_iff in H as [H H5].
+  rewrite forallb_forall in H5. specialize (H5 r Hr). apply andb_true_iff in H5 as [_ H5].
+  now apply Z.ltb_lt.
+Qed.
+
+Lemma find_row_nonzero a m r : In a actors -> find_row a m = Some r -> (m =? 0) = false.
+Proof.
+  intros Ha Hf. destruct (find_row_in _ _ _ Hf) as [Hr Hm].
+  pose proof (row_num_pos a r Ha Hr). apply Z.eqb_neq. lia.
+Qed.
+
 (* ---------------------------------------------------------------------------------------- *)
 (* the clauses of the property                                                              *)
 (* ---------------------------------------------------------------------------------------- *)
@@ -227,7 +244,7 @@ Proof.
   assert (Hd := row_has_dispatch a r Ha Hr).
   assert (Hden : denote e (r_guard r) c = false).
   { rewrite (row_guard_is_spec a r e c Ha Hr). now apply existsb_false_iff. }
-  unfold call, dispatch. rewrite Hd. cbn [negb].
+  unfold call, dispatch. rewrite (find_row_nonzero a m r Ha Hf), Hd. cbn [negb].
   destruct (a_restricted a && negb (restrict_internal_api m c)).
   - exists RejInternal. split; reflexivity.
   - rewrite Hf.
@@ -249,7 +266,7 @@ Proof.
   assert (Hd := row_has_dispatch a r Ha Hr).
   assert (Hden : denote e (r_guard r) c = true).
   { rewrite (row_guard_is_spec a r e c Ha Hr). now apply existsb_exists. }
-  unfold dispatch. rewrite Hd. cbn [negb].
+  unfold dispatch. rewrite (find_row_nonzero a m r Ha Hf), Hd. cbn [negb].
   assert (E : a_restricted a && negb (restrict_internal_api m c) = false).
   { destruct Hres as [-> | ->]; [reflexivity|]. cbn. now rewrite andb_false_r. }
   rewrite E, Hf. now apply guard_outcome_passed.
@@ -274,29 +291,31 @@ Qed.
 
 Theorem internal_api_closed : forall a e m c,
   In a actors -> ~ In (a_name a) spec_unrestricted -> a_has_dispatch a = true ->
-  m < FIRST_EXPORTED_METHOD_NUMBER ->
+  0 < m < FIRST_EXPORTED_METHOD_NUMBER ->
   (in_class e c EvmContract = true \/ in_class e c C_NonBuiltin = true \/ in_class e c C_NoCode = true) ->
   dispatch a e m c = RejInternal.
 Proof.
-  intros a e m c Ha Hn Hd Hm Hc.
+  intros a e m c Ha Hn Hd [Hm0 Hm] Hc.
+  assert (E0 : (m =? 0) = false) by (apply Z.eqb_neq; lia).
   assert (Hr := restricted_unless_listed a Ha Hn).
   assert (Hx : external_caller c = true).
   { unfold external_caller. cbn in Hc. unfold has_type in Hc.
     destruct (c_code c) as [| |t]; try reflexivity.
     destruct Hc as [Hc|[Hc|Hc]]; try discriminate.
     destruct t; cbn in Hc; try discriminate; reflexivity. }
-  unfold dispatch. rewrite Hd, Hr. cbn [negb andb].
+  unfold dispatch. rewrite E0, Hd, Hr. cbn [negb andb].
   unfold restrict_internal_api. rewrite Hx. cbn [negb orb].
   assert (E : (FIRST_EXPORTED_METHOD_NUMBER <=? m) = false) by (apply Z.leb_gt; exact Hm).
   rewrite E. reflexivity.
 Qed.
 
 Theorem undefined_method_rejected : forall a e m c,
-  In a actors -> find_row a m = None ->
+  In a actors -> m <> 0 -> find_row a m = None ->
   (forall f, a_fallback a = Some f -> m < f_from f) ->
   dispatch a e m c = Unhandled \/ dispatch a e m c = RejInternal.
 Proof.
-  intros a e m c Ha Hf Hfb. unfold dispatch.
+  intros a e m c Ha Hm0 Hf Hfb. unfold dispatch.
+  apply Z.eqb_neq in Hm0. rewrite Hm0.
   destruct (negb (a_has_dispatch a)); [now left|].
   destruct (a_restricted a && negb (restrict_internal_api m c)); [now right|].
   rewrite Hf. destruct (a_fallback a) as [f|] eqn:E; [|now left].
@@ -332,7 +351,8 @@ Proof.
   - intros name num frc Hin. rewrite forallb_forall in H1. apply Nat.eqb_eq. apply H1.
     unfold enum_nums. apply in_map_iff. exists (name, num, frc). split; [reflexivity|easy].
   - intros r Hr. split.
-    + rewrite forallb_forall in H5. apply Z.leb_le. now apply H5.
+    + rewrite forallb_forall in H5. specialize (H5 r Hr). apply andb_true_iff in H5 as [H5 _].
+      now apply Z.leb_le.
     + rewrite forallb_forall in H2. specialize (H2 r Hr).
       apply existsb_exists in H2 as ([[n1 n2] fr] & Hin & E).
       cbn in E. apply andb_true_iff in E as [E1 E2]. apply String.eqb_eq in E1. apply Z.eqb_eq in E2.
